@@ -102,6 +102,28 @@ class Pair:
         out.sort()
         return [x for x in out if sa is None or x[1] == sa]
 
+    def dm1_payloads_all(self):
+        """like dm1_payloads but from both stacks"""
+        out = []
+        for f in self.bus.log:
+            if not f.ext:
+                continue
+            if self.dll == 'j1939-21':
+                if f.pf == 0xFE and f.ps == 0xCA:
+                    out.append((f.t, f.sa, bytes(f.data)))
+            elif f.pf == 0x25:
+                try:
+                    for (tos, tf, cpgn, pl) in R.multipg_decode(f.data):
+                        if cpgn == DM1_PGN:
+                            out.append((f.t, f.sa, pl))
+                except ValueError:
+                    out.append((f.t, f.sa, b'undecodable multi-PG'))
+        for m in self.mon.messages:
+            if m['pgn'] == DM1_PGN:
+                out.append((m['t'], m['sa'], m['data']))
+        out.sort()
+        return out
+
     def close(self):
         self.w.shutdown()
 
@@ -386,7 +408,58 @@ def overlap_worker(item):
     return acc
 
 
+def exchange_worker(item):
+    """both nodes use ONE Dm1 object for sending and receiving, and their callbacks hand out the same (persistent) table
+    objects on every call: what a node sends must stay its own table, whatever it receives in between"""
+    _k, dll, n, seed = item
+    acc = Acc()
+    sc = {'part': 'one Dm1 object sends and receives', 'dll': dll, 'dtc_count': n}
+    p = Pair(dll)
+    try:
+        w = p.w
+        tabA = [{'spn': 100 + i, 'fmi': 1 + i, 'oc': 2 + i} for i in range(n)]
+        tabB = [{'spn': 0x4000 + i, 'fmi': 17, 'oc': 9} for i in range(n)]
+        lampA, lampB = {'pl': 1, 'awl': 0, 'rsl': 0, 'mil': 2}, {'pl': 0, 'awl': 3, 'rsl': 1, 'mil': 0}
+        refA = bytes(R.dm1_encode(lampA, tabA))
+        refB = bytes(R.dm1_encode(lampB, tabB))
+        dA, dB = j1939.Dm1(p.acas[0]), j1939.Dm1(p.bcas[0])
+        gotA, gotB = [], []
+        dA.subscribe(lambda sa, lamps, dtcs, ts: gotA.append((sa, lamp_name(lamps), [dict(d) for d in dtcs])))
+        dB.subscribe(lambda sa, lamps, dtcs, ts: gotB.append((sa, lamp_name(lamps), [dict(d) for d in dtcs])))
+        seg = 7 if dll == 'j1939-21' else 60
+        cyc = 0.3 if 2 + 4 * n <= (8 if dll == 'j1939-21' else 60) else 0.3 + ((2 + 4 * n) // seg + 2) * (0.052 if dll == 'j1939-21' else 0.011)
+        dA.start_send(lambda: (lampA, tabA), cyc)
+        w.run_for(cyc / 2)
+        dB.start_send(lambda: (lampB, tabB), cyc)
+        w.run_for(cyc * 4.2)
+        probs = []
+        frames = p.dm1_payloads_all()
+        fromA = [b for (_t, sa, b) in frames if sa == 0x10]
+        fromB = [b for (_t, sa, b) in frames if sa == 0x20]
+        if len(fromA) < 3 or len(fromB) < 3:
+            probs.append("DM1 cycles missing on the bus (%d / %d messages)" % (len(fromA), len(fromB)))
+        if any(b != refA for b in fromA) or any(b != refB for b in fromB):
+            k = next(i for i, b in enumerate(fromA + fromB) if b not in (refA, refB) or (i < len(fromA)) != (b == refA))
+            probs.append("a node's DM1 no longer carries its own lamp states / trouble codes after it received a DM1 from another node (message %d)" % (k + 1))
+        wantA = (0x20, lamp_name(lampB), tabB_copy(n))
+        if any(g != (0x20, lamp_name({'pl': 0, 'awl': 3, 'rsl': 1, 'mil': 0}), [{'spn': 0x4000 + i, 'fmi': 17, 'oc': 9} for i in range(n)]) for g in gotA):
+            probs.append("DM1 subscriber received something else than the other node's table")
+        acc.case(('exchange', dll, n), outcome=(dll, n, len(fromA), len(fromB)))
+        if probs:
+            acc.violation(csig(probs[0]), sc, None, probs[:3])
+    finally:
+        p.close()
+    acc.sample(sc)
+    return acc
+
+
+def tabB_copy(n):
+    return [{'spn': 0x4000 + i, 'fmi': 17, 'oc': 9} for i in range(n)]
+
+
 def worker(item):
+    if item[0] == 'exchange':
+        return exchange_worker(item)
     return {'dtc': dtc_worker, 'dm1': dm1_worker, 'dm22': dm22_worker, 'hist': hist_worker, 'overlap': overlap_worker}[item[0]](item)
 
 
@@ -428,6 +501,8 @@ def run(tier, seed):
                     items.append(('hist', dll, (a, b), depth, seed))
         for (n, cycle) in ((24, 0.4), (10, 0.1), (35, 1.0), (3, 0.05)) if dll == 'j1939-21' else ((100, 0.05), (30, 0.02), (400, 0.1)):
             items.append(('overlap', dll, n, cycle, seed))
+        for n in (1, 2, 3, 14, 15, 40):
+            items.append(('exchange', dll, n, seed))
     return run_check(PROP, tier, seed, 'exploration', items, worker, RULE, ASSUME,
                      bounds={'dtc_counts': '1..400' if not quick else counts, 'history_depth': 3 if quick else 4})
 
@@ -444,6 +519,8 @@ def replay(rec):
         run_history(sc['dll'], [tuple(h) for h in sc['history']], a)
     elif part == 'cycle overlaps transport':
         a = overlap_worker(('overlap', sc['dll'], sc['dtc_count'], sc['cycle'], rec.get('seed', 0)))
+    elif part == 'one Dm1 object sends and receives':
+        a = exchange_worker(('exchange', sc['dll'], sc['dtc_count'], rec.get('seed', 0)))
     elif part == 'dm22':
         a = dm22_worker(('dm22', sc['spn_range'][0], sc['spn_range'][1], rec.get('seed', 0)))
     else:
